@@ -190,7 +190,7 @@ fn main() {
     let ax = axes(thorough);
     let mut crng = Rng::new(run.args.seed ^ 0xC01);
     let mut points = covering_array(&ax, if thorough { 3 } else { 2 }, &mut crng);
-    let nrandom = if thorough { 2000 } else { 60 };
+    let nrandom = if thorough { 40000 } else { 1500 };
     for _ in 0..nrandom {
         points.push(ax.iter().map(|a| *crng.pick(a)).collect());
     }
